@@ -30,6 +30,8 @@ pub enum Kind {
     TeAndCl(u64),
     /// POST with `transfer-encoding: gzip`, `transfer-encoding: chunked` on two lines and `content-length: n`
     TeTwoLinesAndCl(u64),
+    /// POST with `Transfer-Encoding: Chunked` / `CHUNKED` and `content-length: n` (chunked wins whatever its spelling)
+    TeOtherCaseAndCl(u64, bool),
     /// POST with `Expect: 100-continue` (chunked by default): the body state is reached through Await100, with the interim
     /// 100 seen or after giving up waiting (Flow only)
     ViaAwait100 { saw_100: bool },
@@ -108,6 +110,7 @@ impl Sender {
             Kind::SizedAndHost(n) => b.method(Method::PUT).header("host", "explicit.test").header("content-length", n.to_string()),
             Kind::ExplicitTeOtherCase(upper) => b.method(Method::POST).header("Transfer-Encoding", if upper { "CHUNKED" } else { "Chunked" }),
             Kind::TeAndCl(n) => b.method(Method::POST).header("content-length", n.to_string()).header("transfer-encoding", "chunked"),
+            Kind::TeOtherCaseAndCl(n, upper) => b.method(Method::POST).header("Content-Length", n.to_string()).header("Transfer-Encoding", if upper { "CHUNKED" } else { "Chunked" }),
             Kind::TeTwoLinesAndCl(n) => b
                 .method(Method::POST)
                 .header("transfer-encoding", "gzip")
